@@ -264,7 +264,12 @@ def run_qc_check(ctx, spec):
     r = spec.get("random")
     if r:
         for i, s in enumerate(stage_random(ctx, r["fns"], r["count"][tier], r["kinds"], r["size"][tier])):
-            rec.session(s, CONCS[(i + ctx.seed) % len(CONCS)])
+            conc = CONCS[(i + ctx.seed) % len(CONCS)]
+            if i % 4 == 3:
+                # the same series as an integer array (signed, unsigned, masked); the carrier falls back to float64
+                # where the concrete values are not whole numbers
+                conc = dict(conc, xc=["i64", "u16", "i32", "ma_i64"][(i // 4) % 4])
+            rec.session(s, conc)
     ctx.cov["events_from_random_sessions"] = len(rec.events) - n_rp
     # 3. extra sessions supplied by the property (carriers, short series, ...)
     for fn in spec.get("extra", []):
@@ -449,10 +454,21 @@ def extra_carriers(ctx, rec):
             if fn == "press" and any(v == gen_qc.NA for v in c["x"]):
                 continue
             steps = [({"kind": "base", "i": 0, "k": 0}, c)]
-            for v in ({"xc": "i64"}, {"xc": "i32"}, {"xc": "ma_i64"}):
+            for v in ({"xc": "i64"}, {"xc": "i32"}, {"xc": "ma_i64"}, {"xc": "u16"}):
                 steps.append(({"kind": "recall", "i": 0, "k": 0}, json.loads(json.dumps(c)),
                               {"conc": v, "variant": True, "variant_label": "intdata,xc=" + v["xc"]}))
             rec.session(steps, dict(CONCS[1]))
+    # single precision at the edge of its resolution: even numbers just above 2^24 are exact in float32, their
+    # midpoints and odd differences are not -- arithmetic carried out in the carrier's own precision would show
+    for fn in ("spike", "roc", "flat", "dens"):
+        for rep in range(ctx.pick(10, 60)):
+            c = g.base(fn)
+            c["x"] = [v if v == gen_qc.NA else 2 ** 24 + 2 * v for v in c["x"]]
+            steps = [({"kind": "base", "i": 0, "k": 0}, c)]
+            for v in ({"xc": "f32"}, {"xc": "series_f32"}, {"xc": "ma_f32"}):
+                steps.append(({"kind": "recall", "i": 0, "k": 0}, json.loads(json.dumps(c)),
+                              {"conc": v, "variant": True, "variant_label": "f32edge,xc=" + v["xc"]}))
+            rec.session(steps, dict(CONCS[0]))
     # sub-second time axes: outside the domain of the rate / window rules (whole-second steps), but the carriers
     # of one and the same axis must still agree with each other
     for fn in ("roc", "flat", "att", "speed"):
@@ -568,11 +584,15 @@ def extra_big_offsets(ctx, rec):
     """C17: value offsets many orders of magnitude above the differences (exact in float64), where relative
     tolerances or reduced-precision round trips inside a rule would show"""
     g = gen_qc.Gen(ctx.seed + 89, size=ctx.pick(8, 14))
-    for fn in ("flat", "spike", "roc", "dens"):
+    fns = ("flat", "spike", "roc", "dens")       # not att: a rolling standard deviation is not exact at such offsets
+    if ctx.prop != "C17":
+        fns = tuple(f for f in fns if f in PLAN[ctx.prop]["random"]["fns"])
+    for fn in fns:
         for rep in range(ctx.pick(40, 300)):
             c = g.base(fn)
             steps = [({"kind": "base", "i": 0, "k": 0}, c)]
-            for k in (2 ** 20, -(2 ** 21), 2 ** 17 + 1):
+            # 2^27: beyond what single precision resolves (a midpoint or difference held in float32 would show)
+            for k in (2 ** 20, -(2 ** 21), 2 ** 17 + 1, 2 ** 27):
                 d = json.loads(json.dumps(c))
                 d["x"] = [v if v == gen_qc.NA else v + k for v in c["x"]]
                 steps.append(({"kind": "shiftv", "i": 0, "k": k}, d))
@@ -640,17 +660,17 @@ PLAN = {
                     [M("spike5", ["spike"], ["reverse"], 5, big=True, budget=120000),
                      M("spike4p", ["spike"], ["perturb", "tighten"], 4, budget=60000)]),
             "random": {"fns": ["spike"], "count": (500, 8000), "kinds": ["reverse", "negate"], "size": (10, 40)},
-            "extra": [extra_repo_tests]},
+            "extra": [extra_big_offsets, extra_repo_tests]},
     "C10": {"repo_fns": ["roc", "speed"], "mc": T([M("rates", ["roc", "speed"], ["shiftt"], 2, budget=12000),
                      M("roc3", ["roc"], ["perturb"], 3, budget=6000)],
                     [M("rates", ["roc", "speed"], ["shiftt"], 3, big=True, budget=150000),
                      M("roc4", ["roc"], ["perturb", "tighten"], 4, big=True, budget=60000)]),
             "random": {"fns": ["roc", "speed"], "count": (500, 8000), "kinds": ["shiftt"], "size": (10, 30)},
-            "extra": [extra_repo_tests]},
+            "extra": [extra_big_offsets, extra_repo_tests]},
     "C11": {"repo_fns": ["flat"], "mc": T([M("flat5", ["flat"], ["recall"], 5, budget=16000)],
                     [M("flat5", ["flat"], ["shiftv", "tighten"], 5, big=True, budget=150000)]),
             "random": {"fns": ["flat"], "count": (500, 8000), "kinds": ["negate", "shiftt"], "size": (10, 30)},
-            "extra": [extra_repo_tests]},
+            "extra": [extra_big_offsets, extra_repo_tests]},
     "C12": {"repo_fns": ["att"], "mc": T([M("att3", ["att"], ["shiftt"], 3, budget=16000)],
                     [M("att4", ["att"], ["shiftt", "shiftv"], 4, big=True, budget=150000)]),
             "random": {"fns": ["att"], "count": (400, 6000), "kinds": ["shiftv"], "size": (8, 24)},
@@ -658,7 +678,7 @@ PLAN = {
     "C13": {"repo_fns": ["dens", "press"], "mc": T([M("profile", ["dens", "press"], ["mirror"], 3, budget=16000)],
                     [M("profile", ["dens", "press"], ["mirror", "perturb"], 4, budget=150000)]),
             "random": {"fns": ["dens", "press"], "count": (500, 8000), "kinds": ["mirror", "shiftv"], "size": (10, 30)},
-            "extra": [extra_repo_tests]},
+            "extra": [extra_big_offsets, extra_repo_tests]},
     "C14": {"repo_fns": ["loc"], "mc": T([M("loc", ["loc"], ["perturb"], 2, budget=14000)],
                     [M("loc", ["loc"], ["perturb", "tighten"], 3, big=True, budget=150000)]),
             "random": {"fns": ["loc"], "count": (500, 8000), "kinds": ["recall"], "size": (10, 30)},
